@@ -535,7 +535,7 @@ def run_invalid(inv, counters, violations, where):
 
 def plan(tier, seed):
     n = 16 if tier == "quick" else 64
-    per = 450 if tier == "quick" else 2500
+    per = 1500 if tier == "quick" else 4000
     return [{"seed": seed * 100003 + i, "count": per, "invalid": per // 6} for i in range(n)]
 
 
